@@ -316,6 +316,42 @@ example : ∀ t p, p ∈ (fun (t : Tid) => match t with
   | 1, hp => simp at hp; subst hp; simp [Conf, otherTrieStoreCall]
   | n + 2, hp => simp at hp
 
+
+/-! ## the tables are not empty where the statements quantify over them
+
+`reachable_callees_locked`, `storeMethodsLocked`, `shared_store_lockset` and the `.all` conjuncts of `mpt_pinned` range
+over what the extractor recorded; an extractor that silently dropped a package, a file, the calls through the store
+field or the accesses to the store state would make them hold vacuously. This pins the expected entry points
+(exported interface methods, fields resolved by type) and accesses, so that such a table FAILS. -/
+theorem tables_not_vacuous :
+    -- the scope and the callee tables have their rows, every scope method touches something
+    21 ≤ mptScope.length ∧ mptScope.all (fun m => !m.accesses.isEmpty) = true ∧
+    8 ≤ (memoryNodeDB.filter (·.exported)).length ∧ 8 ≤ (levelNodeDB.filter (·.exported)).length ∧
+    6 ≤ (changeCollector.filter (·.exported)).length ∧
+    -- the trie calls its store, its collector and its node cache through the fields of those types
+    ["GetNode", "PutNode", "DeleteNode"].all (fun n => (calledThroughT mptScope mptInfo "NodeDB").contains n) = true ∧
+    ["AddChange", "DeleteChange", "GetChanges", "GetDeletes", "Clone"].all
+      (fun n => (calledThroughT mptScope mptInfo "ChangeCollectorI").contains n) = true ∧
+    ["Get", "Set", "Remove"].all (fun n => (calledThroughT mptScope mptInfo "*statecache.TransactionCache").contains n) = true ∧
+    -- a LevelNodeDB calls the stores below it
+    ["GetNode", "PutNode", "DeleteNode"].all (fun n => (calledThroughT levelNodeDB levelNodeDBInfo "NodeDB").contains n) = true ∧
+    -- MergeMPTChanges reaches the store, and the store table has entry points that write under the store's lock
+    ["PutNode", "DeleteNode"].all (fun n => (calledThroughT [mpt_MergeMPTChanges] mptInfo "NodeDB").contains n) = true ∧
+    levelNodeDB.any (fun x => x.exported && x.accesses.any (fun a => plainWriteKind a.kind && a.mode == .write)) = true ∧
+    -- the footprint contains the store state accessed under both lock modes, the collector state, the node cache state
+    ({ loc := 1000 + dbF, write := true, sub := 2000 + dbF, held := some .W } : FAcc) ∈ footprint mptScope ∧
+    ({ loc := 1000 + dbF, write := true, sub := 2000 + dbF, held := some .R } : FAcc) ∈ footprint mptScope ∧
+    ({ loc := 1000 + ccF, write := true, sub := 2000 + ccF, held := some .W } : FAcc) ∈ footprint mptScope ∧
+    ({ loc := rootF, write := true, sub := 0, held := some .W } : FAcc) ∈ footprint mptScope ∧
+    -- `iterateFrom_status` and `no_record_escapes` are not about empty lists: IterateFrom has accesses, the collector
+    -- has a container of record pointers (the only kind of field `elemEscapes` looks at)
+    !mpt_IterateFrom.accesses.isEmpty = true ∧
+    changeCollectorInfo.fieldTypes.any (fun t => t.startsWith "map[string]*") = true ∧
+    -- the missing-key list is accessed (so the sub-lock conjunct of `mpt_pinned` is not about an empty list)
+    !(mpt_GetNodeValueRaw.accesses.filter (fun a => a.fid == missF)).isEmpty = true ∧
+    ({ loc := missF, write := true, sub := missMuF, held := some .R } : FAcc) ∈ footprint mptScope := by
+  decide +kernel
+
 /-! ## the original code (commit 70d872e) -/
 
 /-- hand-copied from the table the extractor produces for commit 70d872e: `getNode` appended to `missingNodeKeys`
